@@ -270,10 +270,13 @@ def shiftTorchUp (M N up : Nat) (c : Nat → Nat → R) (F : Nat → Nat → Cx 
 def root (n : Nat) (sgn : Int) (a : Int) : Cx R :=
   Cx.cis (Num.ofInt sgn * (Num.two * Num.pi) * Num.ofInt (a % (n : Int)) / Num.ofNat n)
 
+/-- `Σ_{i,j} im[i,j] · wM[(k·i) % M] · wN[(l·j) % N]` for given root tables -/
+def dft2AtW (M N : Nat) (wM wN : Nat → Cx R) (im : Nat → Nat → R) (k l : Nat) : Cx R :=
+  csum M fun i => csum N fun j => Cx.smul (im i j) (wM ((k * i) % M) * wN ((l * j) % N))
+
 /-- `np.fft.fft2(im)[k, l]` (defining sum) -/
 def dft2At (M N : Nat) (im : Nat → Nat → R) (k l : Nat) : Cx R :=
-  csum M fun i => csum N fun j =>
-    Cx.smul (im i j) (root M (-1) ((k * i : Nat) : Int) * root N (-1) ((l * j : Nat) : Int))
+  dft2AtW M N (fun a => root M (-1) (a : Int)) (fun a => root N (-1) (a : Int)) im k l
 
 /-- `F_ref * conj(F_im)` -/
 def ccF (Fr Fi : Nat → Nat → Cx R) : Nat → Nat → Cx R := fun k l => Fr k l * Cx.conj (Fi k l)
@@ -284,11 +287,13 @@ def rampAt (M N : Nat) (Fi : Nat → Nat → Cx R) (s0 s1 : R) (k l : Nat) : Cx 
   Fi k l * Cx.cis (Num.ofRat (-2) * Num.pi *
     (Num.ofInt (freq M k) / Num.ofNat M * s0 + Num.ofInt (freq N l) / Num.ofNat N * s1))
 
+/-- `Re Σ_{k,l} G[k,l] · wM[(k·n) % M] · wN[(l·m) % N] / (M·N)` for given root tables -/
+def idft2ReAtW (M N : Nat) (wM wN : Nat → Cx R) (G : Nat → Nat → Cx R) (n m : Nat) : R :=
+  (csum M fun k => csum N fun l => G k l * (wM ((k * n) % M) * wN ((l * m) % N))).re / Num.ofNat (M * N)
+
 /-- `real(ifft2(G))[n, m]` -/
 def idft2ReAt (M N : Nat) (G : Nat → Nat → Cx R) (n m : Nat) : R :=
-  (csum M fun k => csum N fun l =>
-    G k l * (root M 1 ((k * n : Nat) : Int) * root N 1 ((l * m : Nat) : Int))).re
-    / Num.ofNat (M * N)
+  idft2ReAtW M N (fun a => root M 1 (a : Int)) (fun a => root N 1 (a : Int)) G n m
 
 /-- translating an image by an *integer* shift `(r, c)` (what the phase ramp does for integer
 shifts: `out[i, j] = im[(i - r) % M, (j - c) % N]`) -/
